@@ -47,6 +47,16 @@ CHECKS.update({
    note="The direct-conversion grid over all sample classes and the dtype-spelling helpers is a pure function table and is not explored by this family (DESIGN.md section 5/9). CPU only; stub kernels."),
 })
 
+
+CHECKS.update({
+ "C05": dict(level="exploration", ref="DESIGN.md section 4 C05", technique="deterministic simulation: invariant at the kernel seam (stub kernel receives aspire's own log_prob_fn) paired with model-seam observations; simulator probes aimed at out-of-prior, zero-prior-hole and NaN-likelihood points; closed-form reference model of the composite with the affine identified from observed start positions",
+   text="For every point any kernel evaluates in whole runs (chain points and simulator probes) the returned value is compared with (1-beta) log q(x) + beta (log L(x)+log pi(x)) + log|det dx/dz| where x is what reached the user's model for that very call, q/L/pi are recomputed by the simulator and pre-image and Jacobian come from its own closed-form composite; zero prior must give exactly -inf, NaN tempered values -inf in SMC; in-place mutation of the kernel's array is detected. minipcn SMC, emcee SMC, minipcn MCMC, emcee MCMC x identity/periodic/logit/probit/affine/both x numpy/torch/jax x dtypes.",
+   note="Stub kernels; blackjax.py's duplicate of the target is not run. Points where the bounded map saturates in floating point are counted, not judged. torch float64 is judged at 1e-6 (parts of log|J| are built in float32 by the transforms; observation in DESIGN.md section 7)."),
+ "C09": dict(level="exploration", ref="DESIGN.md section 4 C09", technique="deterministic simulation: invariant at the RNG seam (the simulator's recording Generator sees the probability vector and decides the indices), adversarial index answers through the public resample on every stored population",
+   text="At every rng.choice call of whole runs the probability vector must equal the model's normalised incremental weights of the current stored population for the temperatures actually used (uniform / n_final_samples for the final enlargement), and the kernel must start from rows idx of that population; SMCSamples.resample is additionally driven with adversarial index vectors on every stored population and every field of every output row compared with its source row.",
+   note="Stub kernel/proposal/model; all three namespaces; float32 steps whose log-weights exceed float32 resolution are skipped and counted."),
+})
+
 NOT_APPLICABLE = [
   {"property_id": "C02", "reason": "pure function of one array triple (weights/evidence/ESS formulas): no schedule, storage, randomness, interruption or second party for a simulator to control; see DESIGN.md section 5"},
   {"property_id": "C04", "reason": "pure mathematical map per transform configuration, quantified over inputs only: nothing a crash, seed or operation order can decide; see DESIGN.md section 5"},
